@@ -592,6 +592,48 @@ def corr_policy(ck, drv):
     ck.cov["opset_policy"] = {"cases": len(cases), "mismatches": mism}
 
 
+def corr_inline_req(ck, drv):
+    """tie H for InternalReq.inlineReq: the real `opset_req` of the `_Inline` node for inlined models with tensor /
+    sequence / optional inputs that are (or are not) handed straight to an output, at opsets 15-17, the default
+    domain spelled either way."""
+    import numpy as np
+    import onnx
+    import spox
+    from onnx import helper as h
+    from spox import Optional, Sequence, Tensor, argument
+
+    f2 = Tensor(np.float32, (2,))
+    kinds = {"tensor": f2, "seq": Sequence(f2), "optional": Optional(f2), "optional-of-seq": Optional(Sequence(f2))}
+    reqs, reals, notes = [], [], []
+    for kind, ty in kinds.items():
+        tp = TY._type_proto(ty)
+        for passthrough in (True, False):
+            for imports in ([("", 15)], [("", 16)], [("", 17)], [("", 15), ("ai.onnx", 15)], [("ai.onnx", 13), ("", 16)],
+                            [("ai.onnx.ml", 2), ("", 15)]):
+                vi = h.make_value_info("s", tp)
+                if passthrough:
+                    g = h.make_graph([], "pass", [vi], [h.make_value_info("s", tp)])
+                else:
+                    g = h.make_graph([h.make_node("Identity", ["s"], ["t"], name="idn")], "idg", [vi],
+                                     [h.make_value_info("t", tp)])
+                m = h.make_model(g, opset_imports=[h.make_operatorsetid(d, v) for d, v in imports], ir_version=8)
+                (r,) = spox.inline(m)(argument(ty)).values()
+                reals.append(sorted(set((d, v) for d, v in r._op.opset_req)))
+                k = "optional" if kind.startswith("optional") else kind
+                reqs.append({"k": "inline_req", "imports": [[d, v] for d, v in imports], "pass": [k] if passthrough else []})
+                notes.append((kind, passthrough, imports))
+    outs = drv.ask_many("C02", reqs)
+    mism = 0
+    for note, real, o in zip(notes, reals, outs):
+        ck.count(None)
+        model = sorted(set((d, v) for d, v in o.get("req", [["<error>", 0]])))
+        if model != real:
+            mism += 1
+            if mism <= 3:
+                ck.broken("correspondence", "C02 _Inline.opset_req (InternalReq.inlineReq)", f"case={note} model={model} real={real}")
+    ck.cov["inline_opset_req"] = {"cases": len(reqs), "mismatches": mism}
+
+
 def corr_intro_req(ck, drv):
     """tie H for Model/InternalReq.lean: the real `opset_req` of the `_Introduce` node behind `intros(...)` for every
     combination of value kinds (tensor / sequence / optional / optional-of-sequence / untyped) up to length 3."""
@@ -901,6 +943,7 @@ def run(ck: core.Check):
             with warnings.catch_warnings():
                 warnings.simplefilter("ignore")
                 corr_intro_req(ck, drv)
+                corr_inline_req(ck, drv)
         except Exception as e:  # noqa: BLE001
             ck.broken("correspondence", "C02 internal operator opset_req not observable", f"{type(e).__name__}: {e}")
 
